@@ -1571,6 +1571,9 @@ def _canon(text):
                 break
             else:
                 items.append(t)
+        # x.powi(2) is compiler-rt's 1.0 * (x * x), and 1.0 * y = y exactly in IEEE-754: the same function as x * x, bit for bit
+        if len(items) == 3 and items[0] == 'Flt.powi' and items[2] == '(2 : Int)': return '(sq ' + items[1] + ')'
+        if len(items) == 3 and items[1] == '*' and items[0] == items[2]: return '(sq ' + items[0] + ')'
         if len(items) == 3 and items[1] in ('+', '*'):
             a, b = sorted([items[0], items[2]])
             return '(' + a + ' ' + items[1] + ' ' + b + ')'
@@ -1610,6 +1613,18 @@ def _walk(s, i, refmap, collect):
             k = j
             while k < len(s) and s[k] not in ' \n()': k += 1
             items.append((s[j:k], s[j:k])); pieces.append(s[j:k]); j = k
+    sqform = None
+    if len(items) == 3 and items[0][0] == 'Flt.powi' and items[2][1] == '(2 : Int)': sqform, sqt, sqc = 'powi', items[1][0], items[1][1]
+    elif len(items) == 3 and items[1][0] == '*' and items[0][1] == items[2][1]: sqform, sqt, sqc = 'mul', items[0][0], items[0][1]
+    if sqform:
+        node = '(sq ' + sqc + ')'
+        if collect is not None:
+            collect.setdefault(node, sqform)
+            return '(' + ''.join(pieces) + ')', node, j + 1
+        want = refmap.get(node)
+        if want == 'mul' and sqform == 'powi': return '(' + sqt + ' * ' + sqt + ')', node, j + 1
+        if want == 'powi' and sqform == 'mul': return '(Flt.powi ' + sqt + ' (2 : Int))', node, j + 1
+        return '(' + ''.join(pieces) + ')', node, j + 1
     if len(items) == 3 and items[1][0] in ('+', '*'):
         (ta, ca), (op, _), (tb, cb) = items
         x, y = sorted([ca, cb])
